@@ -273,7 +273,7 @@ func faultyProfile(name, prop string, mix FaultMix, check func(w *World, reason 
 				return nil
 			}
 		},
-		Check: check,
+		Check:      check,
 		Nontrivial: func(w *World) bool { return w.Env.Stats.FaultsFired > 0 },
 	}
 }
